@@ -101,6 +101,8 @@ def canon(t, strip_defs=False):
         return canon(t[2], strip_defs)
     if k == "d":
         return canon(t[2], strip_defs) if strip_defs else ("d", t[1])
+    if k == "g":       # instantiation of the generic Kombination Box: structural in its type argument
+        return ("g", canon(t[1], strip_defs))
     raise ValueError(t)
 
 
@@ -129,6 +131,8 @@ def shape_of_term(t):
         return "K"
     if k == "l":
         return "L(%s)" % shape_of_term(t[1])
+    if k == "g":
+        return "G(%s)" % shape_of_term(t[1])
     return "%s(%s)" % (k.upper(), shape_of_term(t[2]))
 
 
@@ -222,6 +226,12 @@ def build_closure(depth):
                 add(kind="d", name=n, gender=g, term=("d", ident, b.term), depth=d, operand=i, listname=n + " Liste", named=True,
                     decl="Wir definieren %s %s als %s %s.\n" % (AKK[g], n, AKK[b.gender], b.name))
         lo, hi = hi, len(tys)
+    # instantiations of one generic Kombination with every type of depth <= 1 (two instantiations are the same type exactly when
+    # their type arguments are equivalent: an alias is transparent inside, a definition is not)
+    for i in range(len(tys)):
+        b = tys[i]
+        if b.depth <= 1:
+            add(kind="g", name=("%s-Box" % b.name) if b.named else ("(%s)-Box" % b.name), gender="f", term=("g", b.term), depth=b.depth + 1, operand=i, named=False)
     return tys
 
 
@@ -270,6 +280,8 @@ def make_program(tys, pairs, declare_all):
     used = sorted({i for p in pairs for i in p})
     decl = range(len(tys)) if declare_all else needed(tys, used)
     lines = []
+    if any(tys[i].kind == "g" for i in decl):
+        lines += ["Wir nennen die generische Kombination aus", "\tdem T inhalt,", "eine Box."]
     for i in decl:
         if tys[i].decl:
             lines.extend(tys[i].decl.rstrip("\n").split("\n"))
@@ -424,7 +436,7 @@ def part2(chk, tier, sc):
                 chk.sample({"source": "%s = %s" % (s.name, shape(s)), "target": "%s = %s" % (t.name, shape(t)),
                             "init": "%s %s i ist %s." % (NOM[t.gender], t.name, defval(s)), "observed": {p: acc(o[p]) for p in o},
                             "expected_init_assign": acc(model_assign(s, t)), "expected_cast": "not judged" if ec is None else acc(ec)})
-    chk.extra["parser_closure"] = {"depth": depth, "types": n, "by_kind": {k: sum(1 for t in tys if t.kind == k) for k in ("base", "k", "l", "a", "d")},
+    chk.extra["parser_closure"] = {"depth": depth, "types": n, "by_kind": {k: sum(1 for t in tys if t.kind == k) for k in ("base", "k", "l", "a", "d", "g")},
                                    "ordered_pairs_total": n * n, "ordered_pairs_tested": len(pairs), "programs": len(chunks)}
     return depth, n, len(pairs)
 
